@@ -288,6 +288,9 @@ def oracle(case, impl):
     kinds = {}       # realm -> header kind of the challenge that should be answered
     nonce_kinds = {} # (realm, nonce) -> kinds of the challenges that carried this nonce, in order
     last_nc = {}
+    opts = case[7] if len(case) > 7 else ""
+    answered = {}    # realm -> nonce of the challenge whose answer is stored
+    expect = {}      # realm -> (nonce, kind) of the first challenge of the last response that can be answered
     for st, o in zip(steps, isteps):
         if st.startswith("C"):
             realm, up = st[1:].split("=", 1)
@@ -305,12 +308,36 @@ def oracle(case, impl):
                 kinds.setdefault(realm, set()).add(f[0])
                 nonce_kinds.setdefault((realm, bytes.fromhex(f[5]).decode("utf-8", "replace")), []).append(f[0])
             last_nc_reset = True
+            # "only the first supported challenge per realm is answered": the challenges of one response, WWW-Authenticate before
+            # Proxy-Authenticate (the two header kinds are separate entries of the header map), grouped by realm
+            chs = [ch.split(",") for ch in st[1:].split("|")]
+            chs = [c for c in chs if c[0] == "W"] + [c for c in chs if c[0] != "W"]
+            seen_realms = []
+            for c in chs:
+                realm = bytes.fromhex(c[4]).decode("utf-8")
+                if realm in seen_realms:
+                    continue
+                nonce = bytes.fromhex(c[5]).decode("utf-8", "replace")
+                alg_ok = c[1] in ALGS and not ("rejectmd5" in opts and c[1].upper().startswith("MD5"))
+                qs = [] if c[2] == "-" else c[2].split("+")
+                qop_ok = (not qs) or "auth" in qs or "auth-int" in qs
+                if alg_ok and qop_ok and answered.get(realm) != nonce:
+                    seen_realms.append(realm)
+                    if store.get(realm, default) is not None:
+                        expect[realm] = (nonce, c[0])
+                        answered[realm] = nonce
             continue
         for h in [x for x in o[2:-1].split(",") if x]:
             kind, hv = h.split(":", 1)
             text = bytes.fromhex(hv).decode("utf-8")
             d = parse_header(text)
             realm = d.get("realm")
+            if realm in expect and d.get("nonce") != expect[realm][0]:
+                return ["the header for realm %r answers the challenge with nonce %r, but the first supported challenge for that realm in the last "
+                        "response carried nonce %r (%s)" % (realm, d.get("nonce"), expect[realm][0], "Proxy-Authenticate" if expect[realm][1] == "P" else "WWW-Authenticate")]
+            if realm in expect and ("P" if kind == "P" else "W") != expect[realm][1]:
+                return ["the answer for realm %r goes out as %s, the first supported challenge for that realm came as %s" % (
+                    realm, "Proxy-Authorization" if kind == "P" else "Authorization", "Proxy-Authenticate" if expect[realm][1] == "P" else "WWW-Authenticate")]
             cands = [c for c in stored_at.get((realm, d.get("nonce")), [store.get(realm, default)]) if c is not None]
             # the credentials stored for the realm when the answered challenge arrived (a challenge whose nonce was seen before is
             # not answered again, so the earlier ones stay possible)
